@@ -180,9 +180,12 @@ def panic_audit(ctx, p):
                 nauto += 1
                 continue
             hit = None
-            for i, (fn, kind, rx, mx, reason) in enumerate(REVIEWED):
-                if fn == c and kind == s['kind'] and re.search(rx, s['what']):
-                    hit = i
+            for exact in (True, False):      # an entry written for this very body first, then entries that cover it as a helper/closure
+                for i, (fn, kind, rx, mx, reason) in enumerate(REVIEWED):
+                    if (fn == c if exact else lib.site_in(F, fn, c)) and kind == s['kind'] and re.search(rx, s['what']):
+                        hit = i
+                        break
+                if hit is not None:
                     break
             if hit is None:
                 ctx.ob(p + 'unlisted %s %s %s' % (c, s['kind'], re.sub(r'\s+', ' ', s['what'])[:80]), 'K7-panic-audit', c,
